@@ -1403,14 +1403,20 @@ func (sc *serverConn) addRequestField(strm *Stream, hf *HeaderField) error {
 	case bytes.Equal(k, StringContentType):
 		req.Header.SetContentTypeBytes(v)
 	case bytes.Equal(k, StringContentLength):
-		if n, perr := parseUint(v); perr == nil {
-			if sc.maxRequestBodySize > 0 && n > sc.maxRequestBodySize {
-				return NewResetStreamError(EnhanceYourCalm, "request body is too large")
-			}
-
-			strm.contentLength = n
-			strm.hasContentLength = true
+		n, perr := parseUint(v)
+		if perr != nil {
+			// Not a number, or one too large to be a length: the request is
+			// malformed (RFC 7540 8.1.2.6), not a request without a length.
+			return NewResetStreamError(ProtocolError, "invalid content-length")
 		}
+
+		if sc.maxRequestBodySize > 0 && n > sc.maxRequestBodySize {
+			return NewResetStreamError(EnhanceYourCalm, "request body is too large")
+		}
+
+		strm.contentLength = n
+		strm.hasContentLength = true
+
 		req.Header.AddBytesKV(k, v)
 	default:
 		req.Header.AddBytesKV(k, v)
